@@ -139,3 +139,15 @@ def strip_docstring(body: list[ast.stmt]) -> list[ast.stmt]:
     if body and isinstance(body[0], ast.Expr) and isinstance(body[0].value, ast.Constant) and isinstance(body[0].value.value, str):
         return body[1:]
     return body
+
+
+def bound_name(fn_node: ast.AST, value: ast.AST) -> str | None:
+    """The local a value expression is bound to (`x = v`, `x: T = v` or `(x := v)`), if any."""
+    for n in own_nodes(fn_node):
+        if isinstance(n, ast.NamedExpr) and n.value is value:
+            return n.target.id
+        if isinstance(n, ast.Assign) and n.value is value and len(n.targets) == 1 and isinstance(n.targets[0], ast.Name):
+            return n.targets[0].id
+        if isinstance(n, ast.AnnAssign) and n.value is value and isinstance(n.target, ast.Name):
+            return n.target.id
+    return None
